@@ -592,6 +592,85 @@ def family_programs():
     return progs
 
 
+# ---- natives: documented signature and calls through callbacks ---------------
+NATIVE_CALLS = [
+    # (program, expected rendering) - natives that call back into user
+    # functions bind the callback's parameters as declared, too
+    ("sorted([3, 1, 2], cmp = fn(a, b, flip = 1) flip * compare(a, b))",
+     "[1, 2, 3]"),
+    ("sorted([3, 1, 2], cmp = fn(a, b, flip = -1) flip * compare(a, b))",
+     "[3, 2, 1]"),
+    ("sorted([[2, 'b'], [1, 'a']], key = fn(p, idx = 0) p[idx])",
+     "[[1, 'a'], [2, 'b']]"),
+    ("sorted(['bb', 'a', 'ccc'], fn(x, y) compare(length(x), length(y)))",
+     "['a', 'bb', 'ccc']"),
+    ("do def seen = []; sorted([2, 1], cmp = fn(a, b = 'B', c = 'C') do "
+     "append(seen, [b != 'B', c]); compare(a, b) end); seen[0] end",
+     "[TRUE, 'C']"),
+    ("find([[1, 'x'], [2, 'y']], 2, fn(p) p[0])", "1"),
+    ("find([[1, 'x'], [2, 'y'], [2, 'z']], 2, fn(p) p[0], 2)", "2"),
+    ("find_last([[1, 'x'], [2, 'y'], [2, 'z']], 2, fn(p) p[0])", "2"),
+    ("find_last([[1, 'x'], [2, 'y'], [2, 'z']], 2, fn(p) p[0], 1)", "1"),
+    ("[[1, 'x'], [2, 'y']] !> find_last(1, fn(p) p[0])", "0"),
+    ("find_last([1, 2, 1, 2], 2, start = 2)", "1"),
+    ("find_last([[1], [2]], 2, start = 1, key = fn(p) p[0])", "1"),
+    ("do find_last([1, 2, 1, 2], 2, 2) catch all 'rejected' end",
+     "'rejected'"),
+    ("do sorted([2, 1], bogus = 1) catch all 'rejected' end", "'rejected'"),
+    ("do length([1], [2]) catch all 'rejected' end", "'rejected'"),
+    ("do length(obj = [1, 2]) end", "2"),
+    ("do length(nope = [1, 2]) catch all 'rejected' end", "'rejected'"),
+    ("substr('abcdef', 2, endidx = 4)", "'cd'"),
+    ("substr(startidx = 1, str = 'abc')", "'bc'"),
+    ("do def r = []; process_lines(['a', 'b'], fn(line, tag = 't') "
+     "append(r, line + tag)); r end", "['at', 'bt']"),
+]
+
+
+def explore_natives(chunk):
+    agg = core.Agg()
+    s = core.Session(secure=True, legacy=True)
+    for src, want in NATIVE_CALLS:
+        s.reset()
+        o = s.run(src, "native", fuel=30000)
+        agg.count("steps")
+        agg.cls(("native-call", o[0]))
+        if not (o[0] == "value" and o[2] == want):
+            agg.violation({"part": "native-callback"},
+                          {"src": src, "native": True, "want": want},
+                          want, list(o), size=len(src))
+    # the documented signature (first lines of the info text) and the
+    # declared parameter list name the parameters in the same order
+    from mc import sweep
+    import re
+    ss = sweep.SweepSession(legacy=True)
+    for name, fn in ss.funcs:
+        info = getattr(fn, "info", None)
+        if not info:
+            continue
+        try:
+            act = list(fn.getArgNames())
+        except Exception:
+            continue
+        base = name.split("->")[-1]
+        for line in str(info).strip().splitlines()[:4]:
+            m = re.match(r"^%s\((.*)\)\s*$" % re.escape(base), line.strip())
+            if not m:
+                continue
+            doc = [p.strip().split("=")[0].strip().rstrip(".")
+                   for p in m.group(1).split(",") if p.strip()]
+            common = [d for d in doc if d in act]
+            agg.count("steps")
+            if common != [a for a in act if a in common]:
+                agg.violation(
+                    {"part": "declared-order", "fn": base},
+                    {"declared": True, "fn": name, "doc": doc},
+                    "parameters in the documented order " + str(doc),
+                    act, size=len(base))
+    agg.count("cases")
+    return agg
+
+
 def explore_families(chunk):
     agg = core.Agg()
     for what, ast in chunk["programs"]:
@@ -601,6 +680,19 @@ def explore_families(chunk):
 
 
 def replay(case, verbose=False):
+    if case.get("native"):
+        s = core.Session(secure=True, legacy=True)
+        o = s.run(case["src"], "native", fuel=30000)
+        if verbose:
+            print(case["src"], "->", o, "expected", case["want"])
+        return not (o[0] == "value" and o[2] == case["want"])
+    if case.get("declared"):
+        a = explore_natives({})
+        hit = [v for k, (sz, v) in a.viol.items()
+               if v["case"].get("fn") == case["fn"]]
+        if verbose:
+            print(hit)
+        return bool(hit)
     got, logs = H.run_impl_value(case["src"])
     if verbose:
         print(case["src"])
@@ -648,6 +740,7 @@ def main(tier, seed):
             sjobs.append({"firsts": c, "seqs": seqs, "inner": inner,
                           "mid": mid, "nlevels": nlevels})
     agg.merge(core.pmap(explore_scopes, sjobs))
+    agg.merge(core.pmap(explore_natives, [{}]))
     fam = family_programs()
     agg.merge(core.pmap(explore_families, [{"programs": c} for c in
                                            core.chunked(fam, core.NPROC)]))
